@@ -1,5 +1,6 @@
 import EphVerif.Lemmas.C34Class
 import EphVerif.Lemmas.C34Num
+import EphVerif.Lemmas.C34Publish
 
 /-!
 # C34 — auto-advertise never publishes non-routable addresses unless allowed
@@ -85,5 +86,151 @@ theorem classify6 (g0 g1 g2 g3 g4 g5 g6 g7 : Nat)
     rw [fmt6_mapped]
     exact isPrivHost_mapped _ _ _ _ (by omega) (by omega) (by omega) (by omega) (by decide)
       (v4_ranges _ _ _ _ (by omega) (by omega) (by omega) (by omega) hv4)
+
+/-! ## publication
+
+`startTransport cfg stunEnabled stun echo tp` is the node right after `Node::start_transport`: `stun` is whatever the
+STUN query reported (`none` = failed), `echo` the seeded fallback address, `tp` the listener port — all arbitrary.
+`autoAdvertised` = hosts of the non-manual entries of `Config::advertised_endpoints`, `autoHints` = hosts of the
+non-manual (`transport`) discovery hints of a manifest the node then publishes. -/
+
+/-- every automatically published host went through the private/reserved filter -/
+theorem publish_filtered (cfg : Cfg) (stunEnabled : Bool) (stun : Option Str) (echo : Str) (tp : Nat)
+    (hpriv : cfg.allowPrivate = false) :
+    ∀ h ∈ autoAdvertised (startTransport cfg stunEnabled stun echo tp) ++ autoHints (startTransport cfg stunEnabled stun echo tp),
+      isPrivHost h = false := by
+  unfold startTransport
+  generalize some (coordinate stunEnabled stun tp) = nat
+  -- facts about the node after refresh
+  have key : ∀ n : Node, n = refresh cfg echo tp nat →
+      n.cfg = cfg ∧ (∀ c ∈ n.cands, isPrivHost c.host = false) ∧
+      (∀ e ∈ n.endpoints, e.manual = false → isPrivHost e.host = false) := by
+    intro n hn
+    rcases refresh_cases cfg echo tp nat with hidle | ⟨_, nr, _, hact⟩
+    · rw [hidle] at hn; subst hn
+      refine ⟨rfl, by simp [refreshIdle], ?_⟩
+      intro e he hm
+      have := manual_filter cfg e he
+      rw [hm] at this; cases this
+    · rw [hact] at hn; subst hn
+      obtain ⟨hadm, hep, _⟩ := refreshActive_spec cfg echo tp nr
+      have hc : ∀ c ∈ (refreshActive cfg echo tp nr).cands, isPrivHost c.host = false := by
+        intro c hc
+        have := hadm c hc
+        rw [hpriv] at this
+        exact admissible_not_private _ _ this
+      refine ⟨rfl, hc, ?_⟩
+      intro e he hm
+      rcases hep e he with h' | ⟨c, hcc, hec⟩
+      · rw [hm] at h'; cases h'
+      · rw [hec]; exact hc c hcc
+  intro h hh
+  obtain ⟨hcfg, hcands, heps⟩ := key _ rfl
+  rcases List.mem_append.mp hh with hh | hh
+  · -- advertised_endpoints
+    unfold autoAdvertised at hh
+    obtain ⟨e, he, rfl⟩ := List.mem_map.mp hh
+    obtain ⟨he1, he2⟩ := List.mem_filter.mp he
+    exact heps e he1 (by simpa using he2)
+  · -- manifest hints
+    obtain ⟨e, he, hm, rfl⟩ := autoHints_mem _ _ hh
+    rcases preferred_auto _ e he hm with ⟨ep, hep, hepm, hhost⟩ | ⟨_, c, hc, hhost⟩ | ⟨_, hself⟩
+    · rw [← hhost]; exact heps ep hep hepm
+    · rw [← hhost]; exact hcands c hc
+    · rw [hcfg, hpriv] at hself
+      rcases hself with h' | h'
+      · cases h'
+      · exact h'
+
+/-- **C34.publish (private advertising not allowed)**: whatever STUN reports, whatever the control host, mode and
+manual endpoints are, no automatically published endpoint — neither in `advertised_endpoints` nor among the non-manual
+manifest hints — is the canonical text of a non-routable IPv4 or IPv6 address. -/
+theorem publish_routable (cfg : Cfg) (stunEnabled : Bool) (stun : Option Str) (echo : Str) (tp : Nat)
+    (hpriv : cfg.allowPrivate = false) :
+    (∀ a b c d, a < 256 → b < 256 → c < 256 → d < 256 → nonRoutable4 (ip4 a b c d) →
+        fmt4 a b c d ∉ autoAdvertised (startTransport cfg stunEnabled stun echo tp) ++
+          autoHints (startTransport cfg stunEnabled stun echo tp)) ∧
+    (∀ g0 g1 g2 g3 g4 g5 g6 g7, g0 < 65536 → g1 < 65536 → g2 < 65536 → g3 < 65536 → g4 < 65536 → g5 < 65536 →
+        g6 < 65536 → g7 < 65536 → nonRoutable6 (ip6 g0 g1 g2 g3 g4 g5 g6 g7) →
+        fmt6 [g0, g1, g2, g3, g4, g5, g6, g7] ∉ autoAdvertised (startTransport cfg stunEnabled stun echo tp) ++
+          autoHints (startTransport cfg stunEnabled stun echo tp)) := by
+  have hf := publish_filtered cfg stunEnabled stun echo tp hpriv
+  constructor
+  · intro a b c d ha hb hc hd hn hmem
+    have h1 := hf _ hmem
+    rw [classify4 a b c d ha hb hc hd hn] at h1
+    cases h1
+  · intro g0 g1 g2 g3 g4 g5 g6 g7 h0 h1 h2 h3 h4 h5 h6 h7 hn hmem
+    have h' := hf _ hmem
+    rw [classify6 g0 g1 g2 g3 g4 g5 g6 g7 h0 h1 h2 h3 h4 h5 h6 h7 hn] at h'
+    cases h'
+
+/-- no automatic publication at all: the shared core of the `off` and `warn`+conflict clauses -/
+theorem publish_none_of (n : Node) (hgate : publishAuto n = false) (hman : ∀ e ∈ n.endpoints, e.manual = true) :
+    autoAdvertised n = [] ∧ autoHints n = [] := by
+  constructor
+  · unfold autoAdvertised
+    rw [List.map_eq_nil_iff, List.filter_eq_nil_iff]
+    intro e he
+    simp [hman e he]
+  · rw [List.eq_nil_iff_forall_not_mem]
+    intro h hh
+    obtain ⟨e, he, hm, _⟩ := autoHints_mem _ _ hh
+    rcases preferred_auto _ e he hm with ⟨ep, hep, hepm, _⟩ | ⟨hp, _⟩ | ⟨hp, _⟩
+    · have := hman ep hep; rw [hepm] at this; cases this
+    · rw [hgate] at hp; cases hp
+    · rw [hgate] at hp; cases hp
+
+/-- **C34.publish (mode off)**: with auto-advertise off nothing auto-discovered is published (even when private
+advertising is allowed, whatever STUN reports). -/
+theorem publish_off (cfg : Cfg) (stunEnabled : Bool) (stun : Option Str) (echo : Str) (tp : Nat)
+    (hoff : cfg.mode = Mode.off) :
+    autoAdvertised (startTransport cfg stunEnabled stun echo tp) = [] ∧
+    autoHints (startTransport cfg stunEnabled stun echo tp) = [] := by
+  unfold startTransport
+  have : refresh cfg echo tp (some (coordinate stunEnabled stun tp)) = refreshIdle cfg tp (some (coordinate stunEnabled stun tp)) := by
+    unfold refresh; simp [hoff]
+  rw [this]
+  apply publish_none_of
+  · simp [publishAuto, refreshIdle, hoff]
+  · exact manual_filter cfg
+
+/-- **C34.publish (warn mode)**: in warn mode, when the discovered candidates conflict, they are withheld from
+`advertised_endpoints` and from the manifest hints. -/
+theorem publish_warn_conflict (cfg : Cfg) (stunEnabled : Bool) (stun : Option Str) (echo : Str) (tp : Nat)
+    (hwarn : cfg.mode = Mode.warn) (hconf : (startTransport cfg stunEnabled stun echo tp).conflict = true) :
+    autoAdvertised (startTransport cfg stunEnabled stun echo tp) = [] ∧
+    autoHints (startTransport cfg stunEnabled stun echo tp) = [] := by
+  unfold startTransport at hconf ⊢
+  generalize some (coordinate stunEnabled stun tp) = nat at hconf ⊢
+  rcases refresh_cases cfg echo tp nat with hidle | ⟨_, nr, _, hact⟩
+  · rw [hidle] at hconf; simp [refreshIdle] at hconf
+  · rw [hact] at hconf ⊢
+    obtain ⟨_, _, hw⟩ := refreshActive_spec cfg echo tp nr
+    apply publish_none_of
+    · have hc : (refreshActive cfg echo tp nr).cfg = cfg := rfl
+      simp [publishAuto, hc, hwarn, hconf]
+    · exact hw hwarn hconf
+
+/-! ## generated-constant obligations and non-vacuity -/
+
+/-- the literals the proofs above rely on, as regenerated from the source -/
+theorem generated_literals :
+    "::" ∈ kV6Exact ∧ "::1" ∈ kV6Exact ∧ kMappedPrefix = "::ffff:" ∧ kInvalidHost = "0.0.0.0" ∧ kPreferredMethod = "stun" ∧
+    (∀ p ∈ ["fc", "fd", "fe8", "fe9", "fea", "feb", "ff", "2001:db8"], p ∈ kV6Prefixes) := by decide
+
+-- the hypotheses are satisfiable and the conclusions are not trivially true:
+example : nonRoutable4 (ip4 198 19 0 1) ∧ isPrivHost (fmt4 198 19 0 1) = true := by decide
+example : ¬ nonRoutable4 (ip4 8 8 8 8) ∧ isPrivHost (fmt4 8 8 8 8) = false := by decide
+example : nonRoutable6 (ip6 0 0 0 0 0 0xffff 0x0a00 1) ∧ fmt6 [0, 0, 0, 0, 0, 0xffff, 0x0a00, 1] = "::ffff:10.0.0.1".toList := by decide
+example : isPrivHost (fmt6 [0x2001, 0x4860, 0x4860, 0, 0, 0, 0, 0x8888]) = false := by decide
+/-- a public STUN address *is* published in mode on … -/
+example : autoHints (startTransport ⟨.on, false, sLoop, 47777, none, none, []⟩ true (some "45.64.61.85".toList) "198.51.100.20".toList 40000)
+    = ["45.64.61.85".toList] := by decide
+/-- … a private one is not, and none in mode off -/
+example : autoHints (startTransport ⟨.on, false, sLoop, 47777, none, none, []⟩ true (some "10.1.2.3".toList) "198.51.100.20".toList 40000) = [] := by decide
+example : autoHints (startTransport ⟨.off, true, sLoop, 47777, none, none, []⟩ true (some "45.64.61.85".toList) "198.51.100.20".toList 40000) = [] := by decide
+/-- warn mode with a conflict (needs allow_private) -/
+example : (startTransport ⟨.warn, true, "10.0.0.5".toList, 47777, none, none, []⟩ true (some "45.64.61.85".toList) "198.51.100.20".toList 40000).conflict = true := by decide
 
 end EphVerif.C34
